@@ -8,6 +8,8 @@ import (
 	"context"
 	"encoding/json"
 	"fmt"
+	"math"
+	"strconv"
 	"strings"
 
 	apifu "github.com/ccbrown/api-fu"
@@ -23,6 +25,7 @@ import (
 // Case is one request; the replay format.
 type Case struct {
 	Site    string `json:"site"`     // field | directive | skip | include
+	Env     string `json:"env"`      // ((Name hooked|plain ((f ty dflt)…))…): the input object types, by name
 	ArgDefs string `json:"arg_defs"` // ((name ty dflt)…)
 	VarDefs string `json:"var_defs"` // ((name ty none|(some lit))…)
 	Args    string `json:"args"`     // ((name lit)…)
@@ -57,6 +60,7 @@ type named struct {
 
 type pcase struct {
 	site    string
+	env     map[string]*InputDef
 	argDefs []argDef
 	varDefs []varDef
 	args    []named
@@ -65,12 +69,23 @@ type pcase struct {
 
 func (c *Case) parse() (*pcase, error) {
 	p := &pcase{site: c.Site}
+	envText := c.Env
+	if envText == "" {
+		envText = "()"
+	}
+	ex, err := hx.ParseSexp(envText)
+	if err != nil {
+		return nil, err
+	}
+	if p.env, err = parseEnv(ex); err != nil {
+		return nil, err
+	}
 	ad, err := hx.ParseSexp(c.ArgDefs)
 	if err != nil {
 		return nil, err
 	}
 	for _, x := range ad.List {
-		t, err := parseTy(x.List[1])
+		t, err := parseTy(x.List[1], p.env)
 		if err != nil {
 			return nil, err
 		}
@@ -85,7 +100,7 @@ func (c *Case) parse() (*pcase, error) {
 		return nil, err
 	}
 	for _, x := range vd.List {
-		t, err := parseTy(x.List[1])
+		t, err := parseTy(x.List[1], p.env)
 		if err != nil {
 			return nil, err
 		}
@@ -112,12 +127,45 @@ func (c *Case) parse() (*pcase, error) {
 	return p, nil
 }
 
-func (c *Case) modelLine() string {
-	site := "field"
+func (c *Case) modelSite() string {
 	if c.Site != "field" {
-		site = "directive"
+		return "directive"
 	}
-	return "(case " + site + " " + c.ArgDefs + " " + c.VarDefs + " " + c.Args + " " + c.Raw + ")"
+	return "field"
+}
+
+// modelLine is the case for the generalised model (type environment, Go kinds).
+func (c *Case) modelLine() string {
+	env := c.Env
+	if env == "" {
+		env = "()"
+	}
+	return "(rcase " + c.modelSite() + " " + env + " " + c.ArgDefs + " " + c.VarDefs + " " + c.Args + " " + c.Raw + ")"
+}
+
+// treeLine is the case for the tree model, when it can express it ("" otherwise): no recursive or
+// hooked input type, no custom scalar, only JSON kinds in the variables.
+func (c *Case) treeLine(p *pcase) string {
+	for _, r := range p.raw {
+		if !jsonKindsOnly(r.V) {
+			return ""
+		}
+	}
+	ads := []hx.Sexp{}
+	for _, a := range p.argDefs {
+		if !treeExpressible(a.Ty, map[string]bool{}) {
+			return ""
+		}
+		ads = append(ads, hx.L(hx.A(a.Name), a.Ty.TreeSexp(), dfltSexp(a.Dflt)))
+	}
+	vds := []hx.Sexp{}
+	for _, v := range p.varDefs {
+		if !treeExpressible(v.Ty, map[string]bool{}) {
+			return ""
+		}
+		vds = append(vds, hx.L(hx.A(v.Name), v.Ty.TreeSexp(), dfltSexp(v.Dflt)))
+	}
+	return "(case " + c.modelSite() + " " + hx.L(ads...).String() + " " + hx.L(vds...).String() + " " + c.Args + " " + c.Raw + ")"
 }
 
 // queryText renders the operation.
@@ -158,7 +206,7 @@ func (p *pcase) variablesText() string {
 	parts := []string{}
 	for _, r := range p.raw {
 		k, _ := json.Marshal(r.Name)
-		parts = append(parts, string(k)+":"+jsonText(r.V))
+		parts = append(parts, string(k)+":"+rawText(r.V))
 	}
 	return "{" + strings.Join(parts, ",") + "}"
 }
@@ -174,6 +222,11 @@ var scalarTypes = map[string]*graphql.ScalarType{
 type registry struct {
 	enums  map[string]*graphql.EnumType
 	inputs map[string]*graphql.InputObjectType
+	onHook func() // called at every invocation of an InputCoercion hook
+}
+
+func newRegistry() *registry {
+	return &registry{enums: map[string]*graphql.EnumType{}, inputs: map[string]*graphql.InputObjectType{}}
 }
 
 func goDefault(d *hx.Sexp) interface{} {
@@ -186,10 +239,83 @@ func goDefault(d *hx.Sexp) interface{} {
 	return goOf(*d)
 }
 
+// evenInput: the integer a variable value of the custom scalar Even denotes (float64 or any Go
+// integer kind).
+func evenInput(v interface{}) (int64, bool) {
+	switch v := v.(type) {
+	case float64:
+		if v == math.Trunc(v) && v >= -9223372036854775808.0 && v < 9223372036854775808.0 {
+			return int64(v), true
+		}
+	case int8:
+		return int64(v), true
+	case int16:
+		return int64(v), true
+	case int32:
+		return int64(v), true
+	case int64:
+		return v, true
+	case int:
+		return int64(v), true
+	case uint8:
+		return int64(v), true
+	case uint16:
+		return int64(v), true
+	case uint32:
+		return int64(v), true
+	case uint64:
+		if v <= math.MaxInt64 {
+			return int64(v), true
+		}
+	case uint:
+		if uint64(v) <= math.MaxInt64 {
+			return int64(v), true
+		}
+	}
+	return 0, false
+}
+
+var customTypes = map[string]*graphql.ScalarType{
+	"Even": {Name: "Even",
+		LiteralCoercion: func(v ast.Value) interface{} {
+			if iv, ok := v.(*ast.IntValue); ok {
+				if n, err := strconv.ParseInt(iv.Value, 10, 64); err == nil && n%2 == 0 {
+					return customOut{"Even", int(n)}
+				}
+			}
+			return nil
+		},
+		VariableValueCoercion: func(v interface{}) interface{} {
+			if n, ok := evenInput(v); ok && n%2 == 0 {
+				return customOut{"Even", int(n)}
+			}
+			return nil
+		},
+		ResultCoercion: func(v interface{}) interface{} { return nil },
+	},
+	"Tag": {Name: "Tag",
+		LiteralCoercion: func(v ast.Value) interface{} {
+			if sv, ok := v.(*ast.StringValue); ok && sv.Value != "" {
+				return customOut{"Tag", sv.Value}
+			}
+			return nil
+		},
+		VariableValueCoercion: func(v interface{}) interface{} {
+			if s, ok := v.(string); ok && s != "" {
+				return customOut{"Tag", s}
+			}
+			return nil
+		},
+		ResultCoercion: func(v interface{}) interface{} { return nil },
+	},
+}
+
 func (r *registry) gql(t *Ty) graphql.Type {
 	switch t.K {
 	case "scalar":
 		return scalarTypes[t.Name]
+	case "custom":
+		return customTypes[t.Name]
 	case "list":
 		return graphql.NewListType(r.gql(t.Elem))
 	case "nn":
@@ -213,8 +339,24 @@ func (r *registry) gql(t *Ty) graphql.Type {
 				m, _ := v.(map[string]interface{})
 				return m, nil
 			}}
-		r.inputs[t.Name] = o
-		for _, f := range t.Fields {
+		if t.Def.Hooked {
+			name := t.Name
+			o.InputCoercion = func(m map[string]interface{}) (interface{}, error) {
+				if r.onHook != nil {
+					r.onHook()
+				}
+				fields := map[string]interface{}{}
+				for k, v := range m {
+					if v == interface{}("reject") || v == interface{}(13) {
+						return nil, fmt.Errorf("%s: the hook rejects field %s", name, k)
+					}
+					fields[k] = v
+				}
+				return hookOut{name, fields}, nil
+			}
+		}
+		r.inputs[t.Name] = o // before the fields: the type may refer to itself
+		for _, f := range t.Def.Fields {
 			o.Fields[f.Name] = &graphql.InputValueDefinition{Type: r.gql(f.Ty), DefaultValue: goDefault(f.Dflt)}
 		}
 		return o
@@ -224,6 +366,7 @@ func (r *registry) gql(t *Ty) graphql.Type {
 
 type world struct {
 	schema     *graphql.Schema
+	hookCalls  int                  // invocations of InputCoercion hooks
 	fArgs      []hx.Sexp            // what f's resolver observed, per invocation
 	gRan       int                  // invocations of g's resolver
 	costArgs   []hx.Sexp            // what f's cost function observed
@@ -232,7 +375,8 @@ type world struct {
 
 func newWorld(p *pcase) (*world, error) {
 	w := &world{filterArgs: map[string][]hx.Sexp{}}
-	r := &registry{enums: map[string]*graphql.EnumType{}, inputs: map[string]*graphql.InputObjectType{}}
+	r := newRegistry()
+	r.onHook = func() { w.hookCalls++ }
 	argMap := func() map[string]*graphql.InputValueDefinition {
 		m := map[string]*graphql.InputValueDefinition{}
 		for _, a := range p.argDefs {
@@ -286,6 +430,16 @@ func newWorld(p *pcase) (*world, error) {
 			collect(t.Elem)
 		case "scalar":
 			extra = append(extra, scalarTypes[t.Name])
+		case "custom":
+			extra = append(extra, customTypes[t.Name])
+		case "input":
+			if _, seen := r.inputs[t.Name]; seen {
+				return
+			}
+			extra = append(extra, r.gql(t).(graphql.NamedType))
+			for _, f := range t.Def.Fields {
+				collect(f.Ty)
+			}
 		default:
 			extra = append(extra, r.gql(t).(graphql.NamedType))
 		}
@@ -321,7 +475,8 @@ type Observed struct {
 	Cost   string // what the cost function observed: "-" (not called) | `(ok …)` | "panic: …"
 	// Ungated: validator.CoerceVariableValues + validator.CoerceArgumentValues called directly on the
 	// parsed, *unvalidated* document: reqerr | fielderr | `(ok …)` | "panic: …"
-	Ungated string
+	Ungated   string
+	HookCalls int // InputCoercion invocations during Execute
 }
 
 func (o Observed) String() string {
@@ -351,9 +506,23 @@ func runReal(c *Case) (o Observed, query, variables string, err error) {
 	if err != nil {
 		return o, query, variables, fmt.Errorf("schema rejected: %v", err)
 	}
-	var vars map[string]interface{}
-	if err := json.Unmarshal([]byte(variables), &vars); err != nil {
-		return o, query, variables, fmt.Errorf("variables do not decode: %v", err)
+	vars := map[string]interface{}{}
+	allJSON := true
+	for _, r := range p.raw {
+		if !jsonKindsOnly(r.V) {
+			allJSON = false
+		}
+	}
+	if allJSON {
+		// exactly what NewRequestFromHTTP does with the request body
+		if err := json.Unmarshal([]byte(variables), &vars); err != nil {
+			return o, query, variables, fmt.Errorf("variables do not decode: %v", err)
+		}
+	} else {
+		// a caller of graphql.Execute filling Request.VariableValues with Go values of any kind
+		for _, r := range p.raw {
+			vars[r.Name] = goIn(r.V)
+		}
 	}
 	observedArgs := func() []hx.Sexp {
 		switch p.site {
@@ -376,7 +545,9 @@ func runReal(c *Case) (o Observed, query, variables string, err error) {
 			o.Class, o.Detail = "invalid", errorTexts(errs)
 			return
 		}
+		w.hookCalls = 0
 		resp := graphql.Execute(&graphql.Request{Context: context.Background(), Document: doc, Schema: w.schema, VariableValues: vars})
+		o.HookCalls = w.hookCalls
 		body, merr := json.Marshal(resp)
 		if merr != nil {
 			o.Class, o.Detail = "odd", "response does not marshal: "+merr.Error()
